@@ -67,7 +67,7 @@ def gen_scenario(rnd, k):
             t0 += 5 * 10**9
     rnd.shuffle(evs)
     return dict(events=evs, async_flag=(k % 2 == 1), custom=(k % 4 >= 2), mapping=MAPPINGS[(k // 4) % len(MAPPINGS)] if k % 4 >= 2 else None,
-                bs=rnd.choice([3, 1000]), padded=(k % 5 == 4))
+                bs=rnd.choice([3, 1000]), padded=(k % 5 == 4), spaced=(k % 3 == 1))
 
 
 def ty_namer(sc):
@@ -81,11 +81,19 @@ def ty_namer(sc):
     return f
 
 
+SPACED = {1: "Order Processing", 2: "pay ments v2", 3: "Checkout"}
+
+
+def wf_namer(sc):
+    """workflow names; in 'spaced' scenarios they contain blanks (the tool derives file names from them)"""
+    return (lambda i: SPACED[i]) if sc.get("spaced") else S.s_name
+
+
 def run_scenario(sc):
     import yaml
     res = dict(errors=[])
     with common.Scratch("c14") as d:
-        data = C.write_dataset(d, sc["events"], ty_name=ty_namer(sc))
+        data = C.write_dataset(d, sc["events"], ty_name=ty_namer(sc), wf_name=wf_namer(sc))
         seqcfg = {"async_flag": sc["async_flag"]}
         cfg = C.write_config(d, data, None, bs=sc["bs"], sequencer=seqcfg)
         mc = []
@@ -105,8 +113,9 @@ def run_scenario(sc):
         res["files"] = {}
         jobdirs = sorted(p for p in (d / "B").iterdir() if p.is_dir()) if (d / "B").exists() else []
         for jd in jobdirs:
-            res["files"][jd.name] = [json.loads(f.read_text()) for f in sorted(jd.glob("*.json"))]
-            res.setdefault("file_names", {})[jd.name] = sorted(p.name for p in jd.iterdir())
+            stem = jd.name.replace(" ", "_")
+            res["files"][stem] = [json.loads(f.read_text()) for f in sorted(jd.glob("*.json"))]
+            res.setdefault("file_names", {})[stem] = sorted(p.name for p in jd.iterdir())
             rc, tail = C.run_cli(["-o", str(d / "B2"), "pv2puml", "-fp", str(jd), "-jn", jd.name] + mc, d)
             if rc:
                 res["errors"].append(f"pv2puml {jd.name}: " + tail[-300:])
@@ -120,13 +129,13 @@ def in_memory_stream(sc):
     from tel2puml.otel_to_pv.otel_to_pv import otel_to_pv
     import yaml
     with common.Scratch("c14m") as d:
-        data = C.write_dataset(d, sc["events"], ty_name=ty_namer(sc))
+        data = C.write_dataset(d, sc["events"], ty_name=ty_namer(sc), wf_name=wf_namer(sc))
         cfg = yaml.safe_load(C.write_config(d, data, None, bs=sc["bs"], sequencer={"async_flag": sc["async_flag"]}).read_text())
         out = {}
         import contextlib, io
         with contextlib.redirect_stdout(io.StringIO()), contextlib.redirect_stderr(io.StringIO()):
             for name, jobs in otel_to_pv(IngestDataConfig(**cfg), ingest_data=True):
-                out[name] = [[dict(e) for e in job] for job in jobs]
+                out[name.replace(" ", "_")] = [[dict(e) for e in job] for job in jobs]
     return out
 
 
@@ -217,7 +226,7 @@ Eval vm_compute in (1%nat, idx (fun c => let ns := map fst (save_jobs nat (repea
         "rule": "random multi-workflow trace sets (1-3 workflows, 3-8 traces each from a template call tree with optional / alternative / "
                 "overlapping children and grandchildren; in half of the workflows the siblings run in a different temporal order from "
                 "trace to trace) through the real CLI: {default, custom} field-name mapping x {sync, async} "
-                "sequencing; non-trivial = distinct data set",
+                "sequencing; a third of the scenarios use workflow names containing blanks; non-trivial = distinct data set",
         "samples": [dict(scenario={k: v for k, v in scs[0].items() if k != "events"}, n_events=len(scs[0]["events"]),
                          otel2puml=results[0].get("A"))],
         "traces_validated_against_impl": n_files, "workflow_diagram_pairs": len(pairs), "saved_job_files": n_files,
